@@ -249,3 +249,45 @@ Theorem C06_loc_list_unsorted_refuted : exists divs parts labels,
   ~ truthful (ll_divisions_unsorted divs labels) (ll_parts divs parts labels).
 Proof. exact ll_unsorted_refuted. Qed.
 Print Assumptions C06_loc_list_unsorted_refuted.
+
+(* alignment (calc_divisions_for_align): the divisions reported for an index-aligned operation between differently partitioned
+   operands are truthful for every operand repartitioned to them (ANY partitions) and for the partition-wise result of every
+   index-local operation; the (min, max) reported when every operand has one partition is truthful; without unique() the
+   vector would be invalid and declare partitions for empty ranges.  Tie: T-LAYER align_layer. *)
+From DX Require Import Align AlignProofs.
+Theorem C06_align_truthful : forall (row : Type) (idx : row -> Z) ds (P : list (list row)),
+  ds <> [] -> Forall (fun d => (2 <= length d)%nat) ds -> Forall Repart.sortedZ ds ->
+  Divisions.truthful (align_divisions ds) (map (map idx) (spec_plan idx (align_divisions ds) P)).
+Proof. exact align_truthful. Qed.
+Print Assumptions C06_align_truthful.
+
+Theorem C06_aligned_result_truthful : forall (row : Type) (idx : row -> Z) (out : Type)
+    (f : list row -> list row -> list out) (key : out -> Z),
+  (forall (p : Z -> bool) A B,
+      filter (fun o => p (key o)) (f A B) = f (filter (fun r => p (idx r)) A) (filter (fun r => p (idx r)) B)) ->
+  forall ds a1 a2 (P1 P2 : list (list row)),
+  ds <> [] -> Forall (fun d => (2 <= length d)%nat) ds -> Forall Repart.sortedZ ds ->
+  In a1 ds -> In a2 ds -> respects idx a1 P1 -> respects idx a2 P2 ->
+  Divisions.truthful (align_divisions ds)
+    (map (map key) (blockwise2 f (spec_plan idx (align_divisions ds) P1) (spec_plan idx (align_divisions ds) P2))).
+Proof. exact aligned_result_truthful. Qed.
+Print Assumptions C06_aligned_result_truthful.
+
+Theorem C06_align_single_truthful : forall (ds : list (list Z)) (Q : list Z),
+  Forall (fun d => exists lo hi, d = [lo; hi] /\ (lo <= hi)%Z) ds ->
+  Forall (fun x => exists d, In d ds /\ (nthZ d 0 <= x <= lastZ d)%Z) Q ->
+  Divisions.truthful (align_single ds) [Q].
+Proof. exact align_single_truthful. Qed.
+Print Assumptions C06_align_single_truthful.
+
+Theorem C06_align_nodedup_refuted :
+  exists ds : list (list Z),
+    ds <> [] /\ Forall (fun d => (2 <= length d)%nat) ds /\ Forall Repart.sortedZ ds /\
+    Forall (fun d => strict_incr d = true) ds /\
+    valid_divs (align_divisions_nodedup ds) = false /\
+    (exists j, (S (S j) < length (align_divisions_nodedup ds))%nat /\
+               nthZ (align_divisions_nodedup ds) j = nthZ (align_divisions_nodedup ds) (S j) /\
+               forall v, in_target (align_divisions_nodedup ds) j v = false) /\
+    valid_divs (align_divisions ds) = true.
+Proof. exact align_nodedup_refuted. Qed.
+Print Assumptions C06_align_nodedup_refuted.
